@@ -124,6 +124,8 @@ func gen(c *lib.Ctx) {
 		genWrapIP(c)
 		genA4Scenario(c)
 		genC03SCION(c)
+		genNoStamp(c, "c03nostamp-ip", false)
+		genNoStamp(c, "c03nostamp-scion", true)
 	case "c05":
 		genC05IP(c)
 		genWrapIP(c)
@@ -137,6 +139,15 @@ func gen(c *lib.Ctx) {
 		genAddr(c, "c05addr")
 		genTsWindow(c, "c05tswin")
 		genNTSDest(c, "c20ntsdest")
+		genWrapCtx(c, "c05wrapctx-ip", false)
+		genWrapCtx(c, "c05wrapctx-scion", true)
+		genNoStamp(c, "c05nostamp-ip", false)
+		genNoStamp(c, "c05nostamp-scion", true)
+	case "flow": // development: the streams of gen_flow.go only
+		genNoStamp(c, "c03nostamp-ip", false)
+		genNoStamp(c, "c03nostamp-scion", true)
+		genWrapCtx(c, "c05wrapctx-ip", false)
+		genWrapCtx(c, "c05wrapctx-scion", true)
 	case "c20":
 		genNTSDest(c, "c20ntsdest")
 	case "c13":
